@@ -75,7 +75,10 @@ def key_of(tree):
 def plain(v):
     if isinstance(v, int) or float(v) == int(v):
         return str(int(v))
-    return repr(float(v))
+    r = repr(float(v))
+    if 'e' in r:
+        return sci(v)             # Excel's spelling: 2E-17, not 2e-17
+    return r
 
 
 def sci(v):
